@@ -46,6 +46,8 @@ def literal_of(t, tm):
 
 def clauses_of(b, tm):
     """Decode 'conjunction of clauses of literals' or return an error string."""
+    if b[0] == "CONST":
+        return [] if b[1][1] else [[]]          # TRUE: no clause; FALSE: the empty clause
     conj = b[2] if b[0] == "AND" else (b,)
     out = []
     for c in conj:
@@ -53,6 +55,8 @@ def clauses_of(b, tm):
         cl = []
         for l in lits:
             lit = literal_of(l, tm)
+            if lit is not None and lit[0][0] == "CONST":
+                lit = None                      # a Boolean constant (negated or not) is not a literal
             if lit is None:
                 return "not a literal: %s" % show(l, 120)
             cl.append(lit)
